@@ -224,9 +224,65 @@ def pol_mixed(ctx):
     return a
 
 
+def _planner(runner: Runner, depth: int):
+    """jit(vmap) of the real environment over every action sequence of length `depth` (small flat action spaces):
+    returns for each sequence how many steps it survives and the reward it collects. Workload only, never an oracle."""
+    import itertools
+
+    import jax
+    import jax.numpy as jnp
+
+    cache = runner.__dict__.setdefault("_planner_cache", {})
+    if depth in cache:
+        return cache[depth]
+    env = runner.env
+    acts = A.all_actions(runner.spec, cap=8)
+    if acts is None:
+        cache[depth] = None
+        return None
+    n = len(acts)
+    seqs = np.asarray(list(itertools.product(range(n), repeat=depth)), np.int32)
+    table = jnp.asarray(np.stack([np.asarray(a) for a in acts]))
+
+    def roll(state, seq):
+        def body(carry, i):
+            s, alive, surv, ret = carry
+            s2, ts = env.step(s, table[i])
+            ret = ret + jnp.where(alive, jnp.sum(ts.reward), 0.0)
+            alive2 = alive & ~ts.last()
+            return (s2, alive2, surv + alive2.astype(jnp.int32), ret), None
+
+        (_, _, surv, ret), _ = jax.lax.scan(body, (state, jnp.array(True), jnp.array(0, jnp.int32), jnp.array(0.0, jnp.float32)), seq)
+        return surv, ret
+
+    f = jax.jit(jax.vmap(roll, in_axes=(None, 0)))
+    cache[depth] = (f, jnp.asarray(seqs), seqs, acts)
+    return cache[depth]
+
+
+def pol_plan(ctx):
+    """Depth-3 exhaustive look-ahead through the real (vmapped) step: survive as long as possible, then collect reward
+    (long PacMan / Snake / 2048 / Sokoban episodes that random play never reaches)."""
+    pl = _planner(ctx["runner"], 3)
+    if pl is None:
+        return pol_survive(ctx)
+    f, jseqs, seqs, acts = pl
+    surv, ret = f(ctx["state"], jseqs)
+    score = np.asarray(surv).astype(np.float64) * 1e4 + np.asarray(ret).astype(np.float64) + ctx["rng"].random(len(seqs)) * 1e-3
+    m = A.get_mask(ctx["ts"])
+    if m is not None and m.ndim == 1 and m.any():
+        # ignored (masked-out) moves "survive" for ever without making progress: the first move must be a legal one
+        first_ok = np.asarray([bool(int(i) < len(m) and m[int(i)]) for i in seqs[:, 0]])
+        score = np.where(first_ok, score, -1.0)
+    a = acts[int(seqs[int(np.argmax(score))][0])]
+    if not A.is_masked_in(ctx["env_name"], A.get_mask(ctx["ts"]), a):
+        ctx["legal_only"] = False
+    return a
+
+
 POLICIES: Dict[str, Callable] = {
     "random": pol_random, "masked": pol_masked, "first": pol_first, "last": pol_last,
-    "invalid_late": pol_invalid_late, "survive": pol_survive, "mixed": pol_mixed,
+    "invalid_late": pol_invalid_late, "survive": pol_survive, "mixed": pol_mixed, "plan": pol_plan,
 }
 
 
